@@ -14,6 +14,7 @@ import (
 	_ "verif/harness/props/c11"
 	_ "verif/harness/props/c12"
 	_ "verif/harness/props/c13"
+	_ "verif/harness/props/c15"
 	_ "verif/harness/props/c16"
 	_ "verif/harness/props/c17"
 	_ "verif/harness/props/c18"
